@@ -1,6 +1,8 @@
 package main
 
 import (
+	"regexp"
+	"go/constant"
 	"fmt"
 	"go/token"
 	"go/types"
@@ -318,6 +320,7 @@ func (e *enc) call(st *State, c *ssa.CallCommon, ins ssa.Instruction, pos token.
 
 	// effects
 	ms := newModSet()
+	ms.precise = true
 	e.p.callMods(ms, c)
 	lm := &localMods{cells: map[*ssa.Alloc]bool{}, allocs: map[*ssa.Alloc]bool{}}
 	e.callLocalMods(c, lm)
@@ -335,6 +338,7 @@ func (e *enc) call(st *State, c *ssa.CallCommon, ins ssa.Instruction, pos token.
 	}
 	e.havoc(st, ms, "c"+sanitize(site))
 	e.havocLocals(st, lm, "c"+sanitize(site))
+	e.havocCells(st, ms, "c"+sanitize(site))
 	if ms.all {
 		e.note("call to " + short + " has an unknown callee: whole heap havocked")
 	}
@@ -364,6 +368,15 @@ func (e *enc) call(st *State, c *ssa.CallCommon, ins ssa.Instruction, pos token.
 			e.assert(eq(n, pureTerms[j]))
 		}
 		results = append(results, n)
+	}
+	if fn != nil && externKeyOf(fn) == "fmt.Errorf" && len(results) == 1 {
+		// fmt.Errorf with a constant format: the verb %w keeps the wrapped error in the chain errors.Is walks
+		// (errIs(result, t) follows from errIs(wrapped, t)); without %w nothing is known about the chain of
+		// the new error (it is NOT assumed to satisfy errors.Is for any sentinel).
+		if w, ok := errorfWrapped(c); ok {
+			e.declareFun("spec_errIs", "(Iface Iface) Bool")
+			e.assume(fmt.Sprintf("(forall ((et Iface)) (! (=> (spec_errIs %s et) (spec_errIs %s et)) :pattern ((spec_errIs %s et))))", e.val(w), results[0], results[0]))
+		}
 	}
 	if contract != nil {
 		cenv := e.calleeEnv(st, pre, fn, contract, c, mc, args, results)
@@ -727,6 +740,66 @@ func (e *enc) appendBuiltin(st *State, c *ssa.CallCommon) string {
 		// above; they give quantified specifications a term to trigger on)
 		e.assert(fmt.Sprintf("(=> (> %s 0) (= (select %s (elem (sarr %s) (+ (soff %s) (slen %s)))) %s))", k, nw, r, r, s, srcAt("0")))
 		e.assert(fmt.Sprintf("(=> (> %s 1) (= (select %s (elem (sarr %s) (+ (soff %s) (- %s 1)))) %s))", k, nw, r, r, n, srcAt(fmt.Sprintf("(- %s 1)", k))))
+	} else if paths, ok := leafPaths(et); ok && !srcIsStr {
+		// aggregate elements made of scalar leaves: the same two axioms per leaf cell
+		// (fld ... (elem arr i) ... id), grouped by the heap (sort) the leaf lives in
+		bySort := map[string][]leafPath{}
+		var sorts []string
+		// leaves no clause of this function's contract names are not tracked cell by cell (their cells in
+		// element positions are forgotten instead): every tracked leaf costs two quantified axioms
+		forget := newModSet()
+		var tracked []leafPath
+		for _, lp := range paths {
+			last := lp.ids[len(lp.ids)-1]
+			if v := fieldByID[last]; v != nil && !e.contractMentionsField(v.Name()) {
+				forget.fields[last] = true
+				continue
+			}
+			tracked = append(tracked, lp)
+		}
+		paths = tracked
+		if len(forget.fields) > 0 {
+			e.havoc(st, forget, "appf")
+			e.note("append of aggregate elements: only the leaves named in the contract are tracked")
+		}
+		for _, lp := range paths {
+			if _, seen := bySort[lp.sort]; !seen {
+				sorts = append(sorts, lp.sort)
+			}
+			bySort[lp.sort] = append(bySort[lp.sort], lp)
+		}
+		for _, ls := range sorts {
+			old := e.heap(st, ls)
+			nw := e.fresh("Mem_"+sortKey(ls)+"_app", "(Array Ref "+ls+")")
+			srcMem := e.heapAt(st, ls, sliceArr(a1))
+			fields := map[int]bool{}
+			var shapes []string
+			for _, lp := range bySort[ls] {
+				fields[lp.ids[len(lp.ids)-1]] = true
+				shapes = append(shapes, lp.shape("r"))
+				cell := func(arr, idx string) string { return lp.at(fmt.Sprintf("(elem %s %s)", arr, idx)) }
+				srcAt := func(i string) string {
+					return fmt.Sprintf("(select %s %s)", srcMem, cell(fmt.Sprintf("(sarr %s)", src), fmt.Sprintf("(+ (soff %s) %s)", src, i)))
+				}
+				q := cell("qb", "qi")
+				inPlace := fmt.Sprintf("(and (= qb (sarr %s)) (<= (+ (soff %s) (slen %s)) qi) (< qi (+ (soff %s) %s)))", s, s, s, s, n)
+				e.assert(implies(fits, fmt.Sprintf("(forall ((qb Ref) (qi Int)) (! (= (select %s %s) (ite %s %s (select %s %s))) :pattern ((select %s %s))))",
+					nw, q, inPlace, srcAt(fmt.Sprintf("(- qi (soff %s) (slen %s))", s, s)), old, q, nw, q)))
+				moved := fmt.Sprintf("(and (= qb %s) (<= 0 qi) (< qi %s))", narr, n)
+				movedVal := fmt.Sprintf("(ite (< qi (slen %s)) (select %s %s) %s)", s, old, cell(fmt.Sprintf("(sarr %s)", s), fmt.Sprintf("(+ (soff %s) qi)", s)), srcAt(fmt.Sprintf("(- qi (slen %s))", s)))
+				e.assert(implies(not(fits), fmt.Sprintf("(forall ((qb Ref) (qi Int)) (! (= (select %s %s) (ite %s %s (select %s %s))) :pattern ((select %s %s))))",
+					nw, q, moved, movedVal, old, q, nw, q)))
+				// ground instances: first and last appended element
+				e.assert(fmt.Sprintf("(=> (> %s 0) (= (select %s %s) %s))", k, nw, cell(fmt.Sprintf("(sarr %s)", r), fmt.Sprintf("(+ (soff %s) (slen %s))", r, s)), srcAt("0")))
+				e.assert(fmt.Sprintf("(=> (> %s 1) (= (select %s %s) %s))", k, nw, cell(fmt.Sprintf("(sarr %s)", r), fmt.Sprintf("(+ (soff %s) (- %s 1))", r, n)), srcAt(fmt.Sprintf("(- %s 1)", k))))
+			}
+			shape := shapes[0]
+			if len(shapes) > 1 {
+				shape = "(or " + strings.Join(shapes, " ") + ")"
+			}
+			e.assert(fmt.Sprintf("(forall ((r Ref)) (! (=> (not %s) (= (select %s r) (select %s r))) :pattern ((select %s r))))", shape, nw, old, nw))
+			e.setHeap(st, ls, old, nw, heapUpd{fields: fields})
+		}
 	} else {
 		ms := newModSet()
 		typeLeaves(et, ms.fields, ms.elems)
@@ -734,6 +807,66 @@ func (e *enc) appendBuiltin(st *State, c *ssa.CallCommon) string {
 		e.note("append of aggregate elements: element contents not tracked")
 	}
 	return r
+}
+
+// leafPath: a scalar leaf of an aggregate element type, as the field ids from the element inwards.
+type leafPath struct {
+	ids  []int
+	sort string
+}
+
+// at: the address of the leaf inside the element at address elem.
+func (lp leafPath) at(elem string) string {
+	t := elem
+	for _, id := range lp.ids {
+		t = fmt.Sprintf("(fld %s %d)", t, id)
+	}
+	return t
+}
+
+// shape: r is the address of this leaf in some slice/array element.
+func (lp leafPath) shape(r string) string {
+	var cs []string
+	t := r
+	for i := len(lp.ids) - 1; i >= 0; i-- {
+		cs = append(cs, fmt.Sprintf("((_ is fld) %s) (= (fidx %s) %d)", t, t, lp.ids[i]))
+		t = fmt.Sprintf("(fbase %s)", t)
+	}
+	cs = append(cs, fmt.Sprintf("((_ is elem) %s)", t))
+	return "(and " + strings.Join(cs, " ") + ")"
+}
+
+// leafPaths: the scalar leaves of a struct type (nested structs flattened); false when a leaf is not a heap
+// scalar (arrays inside the element) - the caller then falls back to forgetting the contents.
+func leafPaths(t types.Type) ([]leafPath, bool) {
+	st, ok := t.Underlying().(*types.Struct)
+	if !ok {
+		return nil, false
+	}
+	var out []leafPath
+	for i := 0; i < st.NumFields(); i++ {
+		f := st.Field(i)
+		id := fieldID(f)
+		switch f.Type().Underlying().(type) {
+		case *types.Struct:
+			sub, ok := leafPaths(f.Type())
+			if !ok {
+				return nil, false
+			}
+			for _, sp := range sub {
+				out = append(out, leafPath{ids: append([]int{id}, sp.ids...), sort: sp.sort})
+			}
+		case *types.Array:
+			return nil, false
+		default:
+			so := sortOf(f.Type())
+			if !isHeapScalar(so) {
+				return nil, false
+			}
+			out = append(out, leafPath{ids: []int{id}, sort: so})
+		}
+	}
+	return out, len(out) > 0
 }
 
 func (e *enc) copyBuiltin(st *State, c *ssa.CallCommon) string {
@@ -1067,3 +1200,132 @@ func (e *enc) storeCell(kind string) (cell, valSort string) {
 }
 
 var _ = sort.Strings
+
+// errorfWrapped: for fmt.Errorf(<constant format>, args...) whose format has a %w verb, the operand it wraps.
+func errorfWrapped(c *ssa.CallCommon) (ssa.Value, bool) {
+	if len(c.Args) != 2 {
+		return nil, false
+	}
+	k, ok := stripVal(c.Args[0]).(*ssa.Const)
+	if !ok || k.Value == nil || k.Value.Kind() != constant.String {
+		return nil, false
+	}
+	format := constant.StringVal(k.Value)
+	ops, ok := varargsOperands(c.Args[1])
+	if !ok {
+		return nil, false
+	}
+	argi := 0
+	for i := 0; i < len(format); i++ {
+		if format[i] != '%' {
+			continue
+		}
+		i++
+		// flags, width, precision
+		for i < len(format) && strings.ContainsRune("+-# 0123456789.", rune(format[i])) {
+			i++
+		}
+		if i >= len(format) {
+			break
+		}
+		switch format[i] {
+		case '%':
+			continue
+		case '*', '[':
+			return nil, false // explicit argument indexes / star widths: not modelled
+		case 'w':
+			if argi >= len(ops) || ops[argi] == nil {
+				return nil, false
+			}
+			o := stripVal(ops[argi])
+			if mi, isMI := o.(*ssa.MakeInterface); isMI {
+				if _, isIface := mi.X.Type().Underlying().(*types.Interface); isIface {
+					o = mi.X
+				}
+			}
+			if _, isIface := o.Type().Underlying().(*types.Interface); !isIface {
+				return nil, false
+			}
+			return o, true
+		default:
+			argi++
+		}
+	}
+	return nil, false
+}
+
+// havocCells: the callee writes exactly the cells some of its pointer arguments point to (mods.go,
+// paramDeref): those cells get a fresh value, everything else of that heap is kept.
+func (e *enc) havocCells(st *State, ms *ModSet, tag string) {
+	type cw struct{ addr, sort string }
+	var cells []cw
+	for _, w := range ms.cellWrites {
+		cells = append(cells, cw{e.val(w.addr), w.sort})
+	}
+	for _, k := range sortedInts2(ms.paramDeref) {
+		// the caller's own pointer parameter handed on
+		if k < len(e.fn.Params) {
+			for _, so := range sortedKeys(ms.paramDeref[k]) {
+				cells = append(cells, cw{e.val(e.fn.Params[k]), so})
+			}
+		}
+	}
+	for _, c := range cells {
+		if isLocalTerm(c.addr) {
+			mc := memCell(c.sort, c.addr)
+			old := e.get(st, mc, "(Array Ref "+c.sort+")")
+			v := e.fresh("cellw_"+tag, c.sort)
+			st.cells[mc] = fmt.Sprintf("(store %s %s %s)", old, c.addr, v)
+			continue
+		}
+		old := e.heap(st, c.sort)
+		v := e.fresh("cellw_"+tag, c.sort)
+		e.setHeap(st, c.sort, old, fmt.Sprintf("(store %s %s %s)", old, c.addr, v), heapUpd{whole: true})
+	}
+}
+
+// contractMentionsField: some clause of the current function's contract (or a predicate it may use) names
+// a field .name.
+func (e *enc) contractMentionsField(name string) bool {
+	if e.c == nil {
+		return false
+	}
+	if e.mentioned == nil {
+		e.mentioned = map[string]bool{}
+		add := func(t string) {
+			for _, m := range reDotName.FindAllStringSubmatch(t, -1) {
+				e.mentioned[m[1]] = true
+			}
+		}
+		for _, cs := range [][]*Clause{e.c.requires, e.c.ensures, e.c.assumes, e.c.postAssumed} {
+			for _, c := range cs {
+				add(c.text)
+			}
+		}
+		for _, l := range e.c.loops {
+			for _, c := range l.invariants {
+				add(c.text)
+			}
+			for _, c := range l.steps {
+				add(c.text)
+			}
+			if l.decreases != nil {
+				add(l.decreases.text)
+			}
+		}
+		for _, ccs := range e.c.calls {
+			for _, cc := range ccs {
+				add(cc.text)
+			}
+		}
+		for _, g := range e.c.ghosts {
+			add(g.text)
+		}
+		for _, pd := range e.p.preds {
+			add(pd.text)
+		}
+	}
+	return e.mentioned[name]
+}
+
+var reDotName = regexp.MustCompile(`\.([A-Za-z_][A-Za-z0-9_]*)`)
